@@ -97,6 +97,7 @@ func libDecode(proto string, addr16, d []byte, c *libC) []byte {
 
 type termStats struct {
 	cycles, inflight, acked, foundInFile, decodedAfterRestart, signals int64
+	optionsDecodedAfterRestart                                         int64
 	latMu                                                              sync.Mutex
 	latencies                                                          []float64
 	stderrCls                                                          map[string]int
@@ -177,9 +178,25 @@ func runTermPlan(run *mon.Run, p termPlan, dir string, st *termStats) {
 			oo := o
 			oo.Varlen = proto == "ipfix"
 			oo.OnlyPEN0 = true
-			t := wire.GenTemplate(g, uint16(256+g.Intn(4)), oo)
-			t.Options, t.Fields, t.Scope = false, t.All(), nil
+			// a third of the exporters announce an options template (scope + option fields): what the cache
+			// file holds for those differs in shape from a plain template
+			oo.Options = n%3 == 1
+			var t *wire.Template
+			for try := 0; ; try++ {
+				t = wire.GenTemplate(g, uint16(256+g.Intn(4)), oo)
+				if t.Options == oo.Options || try > 50 {
+					break
+				}
+			}
 			s := wire.Set{Kind: wire.SetTemplate, Templates: []*wire.Template{t}}
+			if t.Options {
+				s.Kind = wire.SetOptTemplate
+			} else {
+				t.Fields, t.Scope = t.All(), nil
+			}
+			if proto == "nf9" {
+				s.Pad = (4 - wire.SetLen(&s)%4) % 4
+			}
 			e.Tpl[proto] = t
 			e.TplD[proto], _ = wire.EncodeFlow(proto, []uint32{1, 2, 3, 4}, []wire.Set{s})
 		}
@@ -366,6 +383,9 @@ func runTermPlan(run *mon.Run, p termPlan, dir string, st *termStats) {
 					continue
 				}
 				atomic.AddInt64(&st.decodedAfterRestart, 1)
+				if pr.key.e.Tpl[pr.key.proto].Options {
+					atomic.AddInt64(&st.optionsDecodedAfterRestart, 1)
+				}
 				if l, okk := byAgentSeq[pr.key.e.IP.String()+"|"+fmt.Sprint(pr.seq)]; okk && l != string(pr.want) {
 					run.Violation("term:restart-decodes-differently", fmt.Sprintf("plan %d cycle %d: after the restart data of exporter %s (%s) is published as %s; with the template acknowledged before the signal it is %s", p.Index, cycle, pr.key.e.IP, pr.key.proto, clip(l, 200), clip(string(pr.want), 200)), wit(cycle, "restart decodes differently", col, 0))
 				}
@@ -769,6 +789,7 @@ func termMain(args mon.Args) {
 	run.Set("templates_acknowledged_before_a_signal(last plan sizes summed)", st.acked)
 	run.Set("acknowledged_templates_found_in_cache_files", st.foundInFile)
 	run.Set("acknowledged_templates_decoded_after_restart_without_resending", st.decodedAfterRestart)
+	run.Set("of_which_options_templates", st.optionsDecodedAfterRestart)
 	run.Set("exit_latency_s", lat)
 	run.Set("stderr_classes", st.stderrCls)
 	run.Set("race_reports_by_attribution", st.raceAttr)
